@@ -32,7 +32,9 @@ the data tables of lib/encodings.py (fields of `d : enc_data`, contents generate
   `x is None` / `is not None` on that -> pv_is_none;  k in _portable_encodings -> pmem;  k in _extra_encodings -> mem;
   _unmangle_encoding.get(k, k) -> sget um k k (um : the dict as built at import, a parameter).
 ORACLE ATOMS (a statement `v = ATOM`, `ATOM`, `return ATOM`): one `match` on the oracle's answer, the exceptional
-answers are translated as a `raise` of that class AT THAT POINT (so enclosing `except` clauses apply):
+answers are translated as a `raise` of that class AT THAT POINT (so enclosing `except` clauses apply).  Such an answer
+means "an instance of class C" (the last answer: "of none of the classes this oracle tells apart"), so an `except` clause
+naming a proper subclass of C (resp. anything but Exception or a class told apart) cannot be decided: Unsupported.
   codecs.lookup(s) -> co_lookup o s (None: LookupError; Some n: an object whose .name is n)
   _pycodec_to_encoding[k] -> assoc k (ed_c2e d) (None: KeyError)
   _interesting_ascii_bytes.decode(s) -> co_ascii o s: AscSame / AscDiff (a str, == _interesting_ascii_str decided),
@@ -83,7 +85,6 @@ EXC = {'Exception': (None, None), 'LookupError': ('Exception', 'PLookupError'), 
        'IndexError': ('LookupError', 'PIndexError'), 'EncodingLookupError': ('LookupError', 'PEncodingLookupError'),
        'ValueError': ('Exception', None), 'UnicodeError': ('ValueError', None),
        'UnicodeDecodeError': ('UnicodeError', 'PUnicodeDecodeError'), 'UnicodeEncodeError': ('UnicodeError', 'PUnicodeEncodeError'),
-       'OracleEncodeError': ('UnicodeEncodeError', 'PEncodeError'), 'OracleDecodeError': ('UnicodeDecodeError', 'PForeign CUnicodeError'),
        'OSError': ('Exception', 'POSError'), 'FileNotFoundError': ('OSError', 'POSError'), 'RuntimeError': ('Exception', 'PRuntimeError'),
        'NotImplementedError': ('RuntimeError', 'PNotImplementedError'), 'TypeError': ('Exception', 'PTypeError'),
        'Foreign': ('Exception', 'PForeign')}
@@ -170,12 +171,17 @@ class Fn:
             body = w(body)
         return body
 
-    def raise_(self, cls, ctor, env, k):
-        """`raise cls` at this point: the first enclosing handler that catches it, else PRaise ctor"""
+    def raise_(self, cls, ctor, env, k, exact=True, sep=()):
+        """`raise cls` at this point: the first enclosing handler that catches it, else PRaise ctor.
+        exact=False: an oracle (or a callee) says "an instance of cls" (Foreign: of no class in sep): a handler for a
+        proper subclass of cls may or may not catch it -> Unsupported"""
         for layer in k.layers:
             for classes, fn in layer:
-                if any(issub(cls, c) for c in classes):
-                    return fn(env)
+                for c in classes:
+                    if issub(cls, c):
+                        return fn(env)
+                    if not exact and (issub(c, cls) if cls != 'Foreign' else not any(issub(c, x) for x in sep)):
+                        bad(c, 'cannot decide whether this handler catches %s' % cls)
         if ctor is None:
             bad(cls, 'exception class without a constructor left uncaught')
         self.raises.add(cls)
@@ -471,8 +477,8 @@ class Fn:
             dec = lambda same, isb: V(None, 'ascdec', same=same, isbytes=isb)
             return ('cases', 'co_ascii o ' + A[0].text, [
                 ('AscSame', dec(True, False)), ('AscDiff', dec(False, False)), ('AscNotStr', dec(False, True)),
-                ('AscDecodeError', 'OracleDecodeError', EXC['OracleDecodeError'][1]), ('AscLookupError', 'LookupError', 'PLookupError'),
-                ('AscOtherError', 'Foreign', 'PForeign CValueError')])
+                ('AscDecodeError', 'UnicodeDecodeError', 'PForeign CUnicodeError'), ('AscLookupError', 'LookupError', 'PLookupError'),
+                ('AscOtherError', 'Foreign', 'PForeign CValueError')], ('UnicodeDecodeError', 'LookupError'))
         if f == 'bytes' and A and len(A) == 1 and A[0].kind == 'str' and A[0].meta.get('param') and set(kw) == {'encoding'} \
                 and self.ex(kw['encoding'], env).meta.get('const') == 'UTF-32LE':
             i = self.fresh('i')
@@ -487,7 +493,8 @@ class Fn:
                 x = self.ex(t, env)
                 s = x.text if x.kind == 'str' else None
             if s:
-                return ('cases', 'encode ' + s, [('Ok _', V(None, 'unused')), ('Err _', 'OracleEncodeError', 'PEncodeError'), ('Crash ' + c, 'Foreign', 'PForeign ' + c)])
+                return ('cases', 'encode ' + s, [('Ok _', V(None, 'unused')), ('Err _', 'UnicodeEncodeError', 'PEncodeError'), ('Crash ' + c, 'Foreign', 'PForeign ' + c)],
+                        ('UnicodeEncodeError',))
         if f == 'iconv_encoding' and A and len(A) == 1 and A[0].kind == 'str' and not kw and self.spec.get('codecs'):
             return ('cases', None, [(None, V('(IconvCodec %s)' % A[0].text, 'codecinfo'))])
         if f == 'ctx.language.get_unrepresentable_characters' and A and len(A) == 1 and A[0].kind == 'str' and not kw and self.spec.get('unrep'):
@@ -563,7 +570,7 @@ class Fn:
         if a[0] == 'cases':
             out = []
             for case in a[2]:
-                body = cont(case[1], env) if len(case) == 2 else self.raise_(case[1], case[2], env, k)
+                body = cont(case[1], env) if len(case) == 2 else self.raise_(case[1], case[2], env, k, False, a[3] if len(a) > 3 else ())
                 if case[0] is None:
                     return body
                 out.append('| %s =>\n%s' % (case[0], ind(body)))
@@ -593,11 +600,11 @@ class Fn:
             if any(issub(cls, c) for L in k.layers for cs, _ in L for c in cs):
                 ctor = EXC[cls][1]
                 pat = ctor + (' _ _' if ctor in ('PUnicodeDecodeError', 'PUnicodeEncodeError') else ' _' if ctor == 'PForeign' else '')
-                body = self.raise_(cls, None, env, k)
+                body = self.raise_(cls, None, env, k, False)
                 if br.setdefault(pat, body) != body:
                     bad(cls, 'two exception classes with one constructor are handled differently')
             else:
-                self.raises.add(cls)
+                self.raise_(cls, EXC[cls][1], env, k, False)      # (checks that no handler is ambiguous for it)
         x = self.fresh('x')
         return '(fun %s => match %s with\n%s\n  | _ => PRaise %s end)' % (x, x, '\n'.join('  | %s =>\n%s' % (p, ind(ind(b))) for p, b in br.items()), x)
 
